@@ -1387,7 +1387,7 @@ def generate(spec, repo):
 
 def main():
     spec = json.load(open(sys.argv[1]))
-    repo = spec.get('repo', '/repo')
+    repo = os.environ.get('VERIF_REPO', spec.get('repo', '/repo'))
     try:
         text = generate(spec, repo)
     except TranslateError as ex:
